@@ -168,6 +168,13 @@ func (c *Ctx) tr(x ast.Expr) Val {
 		if sl, ok := b.T.Underlying().(*types.Slice); ok {
 			return c.E.sliceElem(c.St, sl.Elem(), b, i)
 		}
+		if at, ok := b.T.Underlying().(*types.Array); ok {
+			out := Val{T: at.Elem()}
+			for _, comp := range b.C {
+				out.C = append(out.C, app("select", comp, i))
+			}
+			return out
+		}
 		c.fail(x, "cannot index %s", b.T)
 	case *ast.KeyValueExpr:
 	case *ast.SliceExpr:
@@ -441,6 +448,9 @@ func (c *Ctx) trCall(x *ast.CallExpr) Val {
 			inner.Old = c.Old.with(map[string]Val{id.Name: ival(bv)})
 		}
 		return bval(fmt.Sprintf("(forall ((%s Int)) %s)", bv, inner.boolT(args[1])))
+	case "payload":
+		v := c.tr(args[0])
+		return ival(v.C[1])
 	case "subref":
 		v := c.tr(args[0])
 		k := c.intT(args[1])
